@@ -919,7 +919,7 @@ pub fn run(ctx: &Ctx) -> ! {
          opener independently on memory::State or shm WriteState+ReadState, 0-2 unrelated channels before the tested one; \
          oracle: same plaintext, the label given to add(), seq = index of the seal; non-trivial = >=1 non-empty message",
         rt_case,
-        ctx.pick(12_000, 600_000),
+        ctx.pick(12_000, 400_000),
         check_rt,
     );
     rep.explore(
@@ -931,7 +931,7 @@ pub fn run(ctx: &Ctx) -> ! {
          pre-filled dst resp. the in-place buffer) does not contain the plaintext, and the untouched message still opens; \
          non-trivial = plaintext distinctive enough for the leak check",
         t_case,
-        ctx.pick(20_000, 1_000_000),
+        ctx.pick(20_000, 600_000),
         check_tamper,
     );
     rep.explore(
@@ -940,7 +940,7 @@ pub fn run(ctx: &Ctx) -> ! {
          last 8 bytes) presented to open, open_in_place(Vec) and open_in_place(FixedBuf); oracle: Err and no panic for each; \
          all 195 calls are made even after a failure and an unlisted failure is reported in preference to the listed one",
         g_short,
-        ctx.pick(2_000, 60_000),
+        ctx.pick(2_000, 40_000),
         check_gs,
     );
     rep.explore(
@@ -948,7 +948,7 @@ pub fn run(ctx: &Ctx) -> ! {
         "arbitrary byte strings of length 0..3000 (half of them with a small sequence number in the last 8 bytes) through one \
          of the three interfaces; oracle: Err, no panic; non-trivial = at least header+tag long",
         g_long,
-        ctx.pick(10_000, 400_000),
+        ctx.pick(10_000, 300_000),
         check_gl,
     );
     rep.finish()
